@@ -29,12 +29,18 @@ def go_codec(ctx, mode, seed, n):
 def coq_check(ctx, name, typ, lines, preds, shard=700):
     """{pred: [indices of cases where the Coq predicate evaluates to false]}"""
     res = dict((p, []) for p in preds)
-    for s in range(0, len(lines), shard):
+
+    def one(s):
         part = lines[s:s + shard]
         txt = HEADER + "Definition cases : list %s := [\n%s\n].\n" % (typ, ";\n".join(part))
         for i, p in enumerate(preds):
             txt += "Definition M%d := Eval vm_compute in mismatches %s cases.\nPrint M%d.\n" % (i, p, i)
-        out = ctx.coq_eval("%s_%d" % (name, s), txt)
+        return s, ctx.coq_eval("%s_%d" % (name, s), txt)
+
+    import concurrent.futures
+    with concurrent.futures.ThreadPoolExecutor(max_workers=8) as ex:
+        outs = list(ex.map(one, range(0, len(lines), shard)))
+    for s, out in outs:
         for i, p in enumerate(preds):
             m = re.search(r"M%d\s*=\s*(.*?)\n\s*:\s*list nat" % i, out, re.S)
             if not m:
